@@ -75,19 +75,35 @@ package relationtuple
 //@   inlined (*success).apply loop 1 invariant forall j in 0..len(res) :: (2*j < $n && ts[j].SubjectID == nil) ==> istype(res[j].Subject, *SubjectSet) && as(res[j].Subject, *SubjectSet) != nil && as(res[j].Subject, *SubjectSet).Object == u[2*j] && as(res[j].Subject, *SubjectSet).Relation == ts[j].SubjectSet.Relation
 
 //@ func (*Mapper).FromSubjectSet
-//@   trusted
-//@   requires m != nil && ctx != nil
+//@   props C16
+//@   requires m != nil && ctx != nil && m.D != nil
 //@   requires[C13] set-present: set != nil
 //@   modifies db
 //@   ensures[C17] read-only-mapper: m.ReadOnly ==> db == old(db)
 //@   ensures err == nil ==> result0 != nil
+//@   ensures[C16] object: err == nil ==> result0.Object == muuid(set.Object) && result0.Relation == set.Relation
+
+// expansion trees: no nil children, every subject one of the two kinds. wftree is a ghost
+// predicate of the root reference; it may be concluded from its definition where a tree is
+// built (fold) - trees are not modified after they are built (standing assumption).
+// Termination of ToTree's recursion is not claimed (no measure is stored in a tree).
+//@ ghost wftree(int) bool
+//@ axiom wftree_nonnil: forall t int :: wftree(t) ==> t != 0
+//@ unfold wftree(t *Tree) bool = (t.Subject != nil ==> wfsubject(t.Subject)) && (forall i in 0..len(t.Children) :: wftree(t.Children[i]))
 
 //@ func (*Mapper).ToTree
-//@   trusted
-//@   requires m != nil && ctx != nil && tree != nil
-//@   modifies db
-//@   ensures db == old(db)
+//@   props C16
+//@   requires m != nil && ctx != nil && m.D != nil && wftree(tree)
+//@   modifies nothing
+//@   ensures[C17] read-only: db == old(db)
 //@   ensures err == nil ==> res != nil
+//@   ensures[C16] node: err == nil ==> res.Tuple != nil && res.Type == tree.Type && len(res.Children) == len(tree.Children)
+//@   ensures[C16] subject-id: (err == nil && tree.Subject != nil && istype(tree.Subject, *SubjectID)) ==> res.Tuple.SubjectID != nil && deref(res.Tuple.SubjectID) == mstr(as(tree.Subject, *SubjectID).ID) && res.Tuple.SubjectSet == nil
+//@   ensures[C16] subject-set: (err == nil && tree.Subject != nil && istype(tree.Subject, *SubjectSet)) ==> res.Tuple.SubjectSet != nil && res.Tuple.SubjectSet.Object == mstr(as(tree.Subject, *SubjectSet).Object) && res.Tuple.SubjectSet.Relation == as(tree.Subject, *SubjectSet).Relation && res.Tuple.SubjectID == nil
+//@   loop 1 invariant res != nil && fresh(res) && res.Tuple != nil && fresh(res.Tuple) && res.Type == tree.Type && res.Tuple.SubjectID == nil && res.Tuple.SubjectSet == nil
+//@   loop 1 invariant len(res.Children) == $n && (isnil(res.Children) || fresh(res.Children))
+//@   loop 1 invariant onSuccess != nil && fresh(onSuccess) && onSuccess.err == addr(err) && deref(onSuccess.err) == nil
+//@   inlined (*success).apply loop 1 unroll 1
 
 // =====================================================================================
 // REST / gRPC handlers of the relationship API (C13 no crash, C17 read-only list,
@@ -104,11 +120,11 @@ package relationtuple
 //@ func handlerDeps.Mapper
 //@   trusted
 //@   pure
-//@   ensures result != nil
+//@   ensures result != nil && result.D != nil
 //@ func handlerDeps.ReadOnlyMapper
 //@   trusted
 //@   pure
-//@   ensures result != nil && result.ReadOnly
+//@   ensures result != nil && result.ReadOnly && result.D != nil
 //@ func handlerDeps.RelationTupleManager
 //@   trusted
 //@   pure
@@ -139,12 +155,31 @@ package relationtuple
 //@   modifies db, wfailed
 //@   ensures wfailed == (old(wfailed) || result != nil)
 
+// at most three deferred assignments: apply's loop is unrolled completely (the unwinding
+// assertion "at most 3 iterations" is an obligation)
 //@ func (*Mapper).FromQuery
-//@   trusted
-//@   requires m != nil && ctx != nil && apiQuery != nil
+//@   props C16
+//@   requires m != nil && ctx != nil && apiQuery != nil && m.D != nil
 //@   modifies db
 //@   ensures[C17] read-only-mapper: m.ReadOnly ==> db == old(db)
 //@   ensures err == nil ==> res != nil && (res.Subject == nil || wfsubject(res.Subject))
+//@   ensures[C16] object: err == nil ==> res.Relation == apiQuery.Relation && (apiQuery.Object == nil ==> res.Object == nil) && (apiQuery.Object != nil ==> res.Object != nil && deref(res.Object) == muuid(deref(apiQuery.Object)))
+//@   ensures[C16] subject-set: (err == nil && apiQuery.SubjectSet != nil) ==> istype(res.Subject, *SubjectSet) && as(res.Subject, *SubjectSet).Object == muuid(apiQuery.SubjectSet.Object) && as(res.Subject, *SubjectSet).Relation == apiQuery.SubjectSet.Relation
+//@   ensures[C16] subject-id: (err == nil && apiQuery.SubjectSet == nil && apiQuery.SubjectID != nil) ==> istype(res.Subject, *SubjectID) && as(res.Subject, *SubjectID).ID == muuid(deref(apiQuery.SubjectID))
+//@   ensures[C16] no-subject: (err == nil && apiQuery.SubjectSet == nil && apiQuery.SubjectID == nil) ==> res.Subject == nil
+//@   inlined (*success).apply loop 1 unroll 3
+
+//@ func (*Mapper).ToQuery
+//@   props C16
+//@   requires m != nil && ctx != nil && q != nil && m.D != nil
+//@   requires q.Subject != nil ==> wfsubject(q.Subject)
+//@   modifies nothing
+//@   ensures err == nil ==> res != nil
+//@   ensures[C16] object: err == nil ==> res.Relation == q.Relation && (q.Object == nil ==> res.Object == nil) && (q.Object != nil ==> res.Object != nil && deref(res.Object) == mstr(deref(q.Object)))
+//@   ensures[C16] subject-id: (err == nil && q.Subject != nil && istype(q.Subject, *SubjectID)) ==> res.SubjectID != nil && deref(res.SubjectID) == mstr(as(q.Subject, *SubjectID).ID) && res.SubjectSet == nil
+//@   ensures[C16] subject-set: (err == nil && q.Subject != nil && istype(q.Subject, *SubjectSet)) ==> res.SubjectSet != nil && res.SubjectSet.Object == mstr(as(q.Subject, *SubjectSet).Object) && res.SubjectSet.Relation == as(q.Subject, *SubjectSet).Relation && res.SubjectID == nil
+//@   ensures[C16] no-subject: (err == nil && q.Subject == nil) ==> res.SubjectID == nil && res.SubjectSet == nil
+//@   inlined (*success).apply loop 1 unroll 2
 
 // ---- C16: the batched mappers. The mapping manager (ASSUMED contract, implemented by the
 // SQL persister) maps position by position: muuid(s) is the UUID it assigns to the string s,
